@@ -117,6 +117,11 @@ class Interp:
         self.max_depth = 12
         self.stats = {"paths": 0, "feas_checks": 0, "inlined": set(), "contract_calls": set(),
                       "lib_calls": set(), "dropped": set()}
+        # wall-clock budget of one symbolic execution: beyond it the function is reported out of reach
+        # (undecided), never a violation — a changed function that explodes the path count must not
+        # stall the whole check
+        import os as _os, time as _time
+        self.deadline = _time.time() + float(_os.environ.get("PYVC_EXEC_BUDGET_S", "150"))
         self.getattribute_hook = False   # route Parameter slot reads through Parameter.__getattribute__
         self.setattr_hook = None         # callable(interp, st, ref, attr, val) -> results or None
         self.attr_hook = None            # callable(interp, st, val, attr) -> Val or None (contract supplied)
@@ -374,6 +379,9 @@ class Interp:
         return [(q, None) for q in live] + done
 
     def exec_stmt(self, s, st, ctx):
+        import time as _time
+        if _time.time() > self.deadline:
+            raise OutOfReach("symbolic execution exceeded its time budget (path explosion)")
         m = getattr(self, "st_" + type(s).__name__, None)
         if m is None:
             raise OutOfReach("statement %s at line %d" % (type(s).__name__, getattr(s, "lineno", 0)))
